@@ -460,6 +460,17 @@ class Dataset:
         ]
         return Dataset(projected_rankings)
 
+    def _sub_problem_keeping_all_rankings(self, elements_to_keep: Set[Element]) -> 'Dataset':
+        """
+        Projection of the Dataset on a set of elements where the rankings that contain none of the elements are kept
+        as empty rankings, so that the pairwise costs between the kept elements are the same as in the initial Dataset.
+
+        :param elements_to_keep: The set of elements to keep in the rankings
+        :return: A new Dataset with as many rankings as the initial one, projected on the elements to keep
+        """
+        return Dataset([Ranking([bucket.intersection(elements_to_keep) for bucket in ranking
+                                 if bucket.intersection(elements_to_keep)]) for ranking in self.rankings])
+
     def sub_problem_from_ids(self, id_elements_to_keep: Set[int]) -> 'Dataset':
         """
         Generates a sub-problem Dataset by projecting the original Dataset on a given set of int IDs of elements.
